@@ -23,6 +23,33 @@ for d in sorted(glob.glob(os.path.join(ROOT, "seeded", "*"))):
         os.path.basename(d), clean(m.get("summary", ""))[:260], m.get("property", "?"),
         clean(m.get("needs_to_manifest", ""))[:260], c.get("detected_by_check", "?"), clean(c.get("check_report", ""))[:300]))
 doc = open(os.path.join(ROOT, "DESIGN.md")).read()
+
+# ---- findings block from known_findings.txt
+frows = ["| status | property | /repo commit or site | what failed |", "|---|---|---|---|"]
+for ln in open(os.path.join(ROOT, "known_findings.txt")):
+    ln = ln.strip()
+    m = re.match(r"fixed: property=(\S+) (\S+) (.*)", ln)
+    if m:
+        frows.append("| fixed (`fix:` commit) | %s | `%s` | %s |" % (m.group(1), m.group(2), m.group(3).replace("|", "/")))
+    m = re.match(r"known: property=(\S+) site=(\S+) pattern=(\S+) :: (.*)", ln)
+    if m:
+        frows.append("| **recorded known finding** (a stable test pins it) | %s | site `%s`, pattern `%s` | %s |" % (
+            m.group(1), m.group(2), m.group(3).replace("|", "/"), m.group(4).replace("|", "/")))
+doc = block("findings", "Genuine defects of menpo established by the checks on the real code (replay on /repo), in the order they "
+            "were settled.  `fixed` entries suppress nothing: the check passes on the repaired tree and reports the violation "
+            "again if it returns.\n\n" + "\n".join(frows), doc)
+
+# ---- per-property status block from the evidence files and INFO
+import sys
+sys.path.insert(0, ROOT)
+prows = ["| property | theorems audited | regenerated obligations | quick evaluations (distinct non-trivial) | partial clauses (proved conditionally / decided by oracle + correspondence only) |", "|---|---|---|---|---|"]
+for f in sorted(glob.glob(os.path.join(ROOT, "evidence", "C*.json"))):
+    ev = json.load(open(f))
+    c = ev["coverage"]
+    prows.append("| %s | %d | %d | %d (%d) | %s |" % (ev["property_id"], len(c.get("theorems", {})), c.get("generated_obligations", 0),
+                 c.get("evaluations", 0), c.get("distinct_nontrivial", 0),
+                 "; ".join(str(x).replace("|", "/").replace("\n", " ") for x in c.get("partial_clauses", [])) or "-"))
+doc = block("status", "### 14.3 Per-property status (from the committed evidence files)\n\n" + "\n".join(prows), doc)
 doc = block("seeded", "### 14.2 Seeded changes (independent sub-agents, property text only) and which checks catch them\n\n"
             "Each change compiles, keeps the 753 pinned tests passing, and comes with a demonstration that fails with it and "
             "passes without it (`seeded/<id>/{patch.diff,demo.py,meta.json}`); confirmed with `tools/try_seed.sh`.\n\n" + "\n".join(rows), doc)
